@@ -1187,18 +1187,3 @@ func posOf(b *cfg.Block) token.Pos {
 	}
 	return token.NoPos
 }
-
-func init() {
-	registry["X03"] = func(c *Check) {
-		L := c.L
-		fi := L.Fn("src/parser.(*parser).matchSeq")
-		g := L.CFG(fi)
-		for _, b := range g.Blocks {
-			var succ []int32
-			for _, s := range b.Succs {
-				succ = append(succ, s.Index)
-			}
-			fmt.Println(b.Index, b.Kind, b.Live, len(b.Nodes), succ)
-		}
-	}
-}
